@@ -116,7 +116,7 @@ impl Property for C01 {
                         } else if sets.st.used_env && env_existential(&case.program) {
                             ":env-with-trait-params"
                         } else if sets.st.co_cycle || (program_has_co_cycle(&case.program) && !goal_is_closed(g)) {
-                            co_qual(g, true)
+                            co_qual_st(g, &sets.st, true)
                         } else {
                             ""
                         };
